@@ -2,6 +2,9 @@
 //!   hol  <name> d0 cnt        -> 0 hash([is_holiday, is_bus_day] for d0..d0+cnt) of get_calendar_by_name(name) | 1 | 2
 //!   one  <name> d             -> 0 is_holiday is_bus_day is_weekday                                          | 1 | 2
 //!   res  <name>               -> 0 | 1 | 2      (does get_calendar_by_name resolve)
+//!   dyn  <name> lo hi         -> 0 w0..w6 (1 = that weekday, Mon=0, is masked) nh h* (every day of lo..=hi with is_holiday) | 1 | 2
+//!                                (the table the RUNNING code answers with; used by the translator when the wiring in
+//!                                 named/mod.rs is written in a form it cannot read)
 //!   nvu  <name> nmem <part>* has_settle [ns <part>*] lo hi
 //!        NamedCal::try_new(name) against the EXPLICIT UnionCal::new([get_calendar_by_name(part)..], settle)
 //!        date for date over lo..=hi (is_bus_day, is_settlement, is_weekday, is_holiday)
@@ -47,6 +50,25 @@ pub fn run(op: &str, a: &Ints) -> Ints {
             let c = get_calendar_by_name(&name).map_err(|_| ())?;
             let dt = from_n(r.next());
             Ok(vec![c.is_holiday(&dt) as i128, c.is_bus_day(&dt) as i128, c.is_weekday(&dt) as i128])
+        }),
+        "dyn" => guard(|| {
+            let name = read_name(&mut r);
+            let c = get_calendar_by_name(&name).map_err(|_| ())?;
+            let (lo, hi) = (r.next(), r.next());
+            let mut out = vec![];
+            // 1970-01-05 is a Monday
+            for wd in 0..7 {
+                out.push((!c.is_weekday(&from_n(4 + wd))) as i128);
+            }
+            let mut hs = vec![];
+            for d in lo..=hi {
+                if c.is_holiday(&from_n(d)) {
+                    hs.push(d);
+                }
+            }
+            out.push(hs.len() as i128);
+            out.extend(hs);
+            Ok(out)
         }),
         "res" => guard(|| {
             let name = read_name(&mut r);
